@@ -750,6 +750,28 @@ class SC:
         return arr.dispatch_function(func, args, kwargs)
 
 
+def _listify(cls):
+    """np.float64-like behaviour for list operands: `[f1, f2] - x` becomes an array operation"""
+    import operator
+    table = {"__add__": (operator.add, False), "__radd__": (operator.add, True), "__sub__": (operator.sub, False),
+             "__rsub__": (operator.sub, True), "__mul__": (operator.mul, False), "__rmul__": (operator.mul, True),
+             "__truediv__": (operator.truediv, False), "__rtruediv__": (operator.truediv, True)}
+    for name, (op, refl) in table.items():
+        orig = getattr(cls, name)
+
+        def w(self, o, *extra, _orig=orig, _op=op, _refl=refl):
+            if isinstance(o, (list, tuple)):
+                from .arr import SymArray
+                a = SymArray(np.array(o, dtype=object))
+                return _op(a, self) if _refl else _op(self, a)
+            return _orig(self, o, *extra)
+        setattr(cls, name, w)
+
+
+_listify(SV)
+_listify(SC)
+
+
 def ite(c, a, b):
     """If-then-else over lifted scalars"""
     if isinstance(c, SB):
